@@ -29,6 +29,7 @@ struct GenParams {
     bool invalid_args = false;     // per-rank invalid arguments in collective data calls (C08)
     bool badids = false;           // calls on ids that are not open (C17)
     bool close_pending = false;    // close with pending nonblocking requests (C17)
+    bool fill_rec_split = false;    // ncmpi_fill_var_rec with different record numbers on different ranks (only without safe mode, which rejects it)
     bool erange = false;            // occasionally one out-of-range value in a put (NC_ERANGE is returned, everything else is still transferred)
     bool iget_overlap_strict = false;   // check the overlapped share of overlapping iget requests on 10% of seeds (C02 known finding)
 };
